@@ -20,3 +20,9 @@ Example gate_rejects_tetra : rejected 4 [(0,2,1); (0,1,3); (1,2,3); (2,0,3)] = t
 Proof. vm_compute. reflexivity. Qed.
 Example gate_accepts_triangle : rejected 3 [(0,1,2)] = false.
 Proof. vm_compute. reflexivity. Qed.
+
+(* constructor: the mode is CUSTOM exactly when the caller wrote custom_boundary with a value other than None -
+   omitting the keyword and passing its default None explicitly select the mode named by boundary_mode *)
+Lemma ctor_mode_spec : forall present given_none : bool,
+  ctor_mode_custom present given_none = true <-> (present = true /\ given_none = false).
+Proof. intros [|] [|]; unfold ctor_mode_custom; simpl; split; intros H; try discriminate; try tauto; destruct H; discriminate. Qed.
